@@ -17,7 +17,7 @@ def program_of(hist):
     for o in hist:
         t = o["t"]
         if t == "cfg":
-            cfg = {"kinds": o["kinds"], "nonce": o["nonce"], "nent": o["nent"], "nworld": o["nworld"], "neworld": o["neworld"], "hier": o.get("hier", 0), "app": o.get("app", [])}
+            cfg = {"kinds": o["kinds"], "nonce": o["nonce"], "nent": o["nent"], "nworld": o["nworld"], "neworld": o["neworld"], "hier": o.get("hier", 0), "app": o.get("app", []), "rcsys": o.get("rcsys", [])}
         elif t == "drv":
             steps.append({"kind": o["kind"], "ops": []})
         elif t == "run":
